@@ -9,7 +9,7 @@ import subprocess
 import sys
 
 VERIF = os.path.dirname(os.path.dirname(os.path.abspath(__file__)))
-WT = "/tmp/seedeval_wt"
+WT = f"/tmp/seedeval_wt_{os.getpid()}"  # one per process: builders run this concurrently
 
 
 def sh(cmd, cwd=None, env=None, timeout=3600):
